@@ -289,10 +289,10 @@ def tIdentify : List FileTable := [
         (.notAPanic "HashMap::insert") "hm_translation = HashMap::new()"
     ]⟩,
     ⟨"identify_reference_space_group", 195245217465983, [
-      ex .div "prim_mag_operations . len ( ) % prim_xsg . len ( )" 1 (.invariant "identity_without_time_reversal_in_magnetic_operations")
-        "prim_xsg (operations without time reversal) is non-empty: PrimitiveMagneticSymmetrySearch tries the candidate (E, 0), whose permutation is the identity and which keeps every moment, with time_reversal = false (LOW CONFIDENCE: fails if two same-species sites coincide exactly with different moments)",
-      ex .div "prim_mag_operations . len ( ) % fsg . len ( )" 1 (.invariant "identity_without_time_reversal_in_magnetic_operations")
-        "fsg receives the first element of prim_mag_operations unconditionally, so it is non-empty whenever prim_mag_operations is",
+      ex .div "prim_mag_operations . len ( ) % prim_xsg . len ( )" 1 (.knownFinding "panic:magnetic_space_group.rs:identify_reference_space_group:div-zero")
+        "FIRES (found by the exploration of checks/c08.py): PrimitiveMagneticSymmetrySearch::new returns an EMPTY operation list when no candidate passes solve_correspondence at the (non-rough) symprec - e.g. atoms of different species closer than symprec - since check_closure of an empty list is vacuously true; then prim_xsg is empty and `% 0` panics (remainder with a divisor of zero)",
+      ex .div "prim_mag_operations . len ( ) % fsg . len ( )" 1 (.checkedByGuard "prim_mag_operations.len() % prim_xsg.len() evaluated first (short-circuit ||)")
+        "fsg receives the first element of prim_mag_operations unconditionally, so it is non-empty whenever prim_mag_operations is; for an empty list the left operand of || has already panicked (same finding)",
       ex .div "prim_mag_operations . len ( ) / prim_xsg . len ( )" 2 (.checkedByGuard "prim_mag_operations.len() % prim_xsg.len() evaluated first")
         "same divisor as the remainder above",
       ex .div "fsg . len ( ) / prim_xsg . len ( )" 1 (.checkedByGuard "prim_mag_operations.len() % prim_xsg.len() evaluated first") "same divisor"
@@ -756,7 +756,8 @@ def allowedFindingKeys : List String := [
   "panic:hall_symbol.rs:parse_operation:assert",
   "panic:hall_symbol.rs:parse_origin_shift:unwrap-err",
   "panic:hall_symbol.rs:parse_origin_shift:unwrap-none",
-  "panic:primitive_symmetry_search.rs:PrimitiveMagneticSymmetrySearch::check_closure:missing-key"
+  "panic:primitive_symmetry_search.rs:PrimitiveMagneticSymmetrySearch::check_closure:missing-key",
+  "panic:magnetic_space_group.rs:identify_reference_space_group:div-zero"
 ]
 
 end Moyo.C08Inv.Table
